@@ -72,7 +72,7 @@ def check_cone_result(inst, res, fields_only=False):
         # p == 0: solvers return an empty y
         y = y[:p]
     ms, mz = CR.margin(s, dims), CR.margin(z, dims)
-    info = {'margin_s': ms, 'margin_z': mz}
+    info = {'margin_s': ms, 'margin_z': mz, 'norm_s': CR.nrm2(s), 'norm_z': CR.nrm2(z)}
     Gx = CR.matvec(G, x)
     Ax = CR.matvec(A, x)
     Gtz = CR.sgemv_t(G, z, dims)
@@ -179,7 +179,7 @@ def check_cpl_result(inst, raw, refuse=None):
     mnl = len(snl)
     s, z = snl + sl, znl + zl
     ms, mz = CR.margin(s, dims, mnl), CR.margin(z, dims, mnl)
-    info = {'margin_s': ms, 'margin_z': mz, 'x': x}
+    info = {'margin_s': ms, 'margin_z': mz, 'x': x, 'norm_s': CR.nrm2(s), 'norm_z': CR.nrm2(z)}
     if not all(gen.comp_in_domain(c, n, x) for c in inst['comps']) or (refuse is not None and refuse(x)):
         probs.append(('domain', 'x', None, None))
         return probs, info
